@@ -105,6 +105,11 @@ let eval (op : string) (a : string list) : string =
         | Some (p, st') -> st := st'; int_of_z p) in
       let picks = List.sort compare picks in
       String.concat "," (List.map (fun p -> Printf.sprintf "%x" p) picks)) calls)
+  | "wrtm", _ ->
+    (* multi-topic Writer: the harness compared the partition list offered for every message with
+       0..n-1 of the message's topic (Model/Balancers.offered) and the produced partition with the
+       balancer's result for that list *)
+    "ok"
   | "hashconc", _ ->
     (* purity under concurrent use: the harness compared every concurrent call with the same
        call made sequentially (Model: the keyed balancers are functions, no state) *)
